@@ -693,12 +693,28 @@ impl<C: CellType> OptRebuild<'_, C> {
         } else if let Some(expr) = sub.get(cond + sub.shift - self.shift) {
             if let Some(inc) = expr.const_inc_of(cond) {
                 if let Some(m) = initial_cond {
+                    #[cfg(feature = "verif")]
+                    crate::verif::trace(format!(
+                        "trip {} {} {} {}",
+                        C::BITS,
+                        m.into_u64(),
+                        inc.into_u64(),
+                        m.wrapping_div(inc.wrapping_neg())
+                            .map_or("inf".to_string(), |n| n.into_u64().to_string())
+                    ));
                     if let Some(n) = m.wrapping_div(inc.wrapping_neg()) {
                         OptLoop::expr(Expr::val(n))
                     } else {
                         OptLoop::infinite(at_least_once)
                     }
                 } else if let Some(inv) = inc.wrapping_neg().wrapping_inv() {
+                    #[cfg(feature = "verif")]
+                    crate::verif::trace(format!(
+                        "tripinv {} {} {}",
+                        C::BITS,
+                        inc.into_u64(),
+                        inv.into_u64()
+                    ));
                     OptLoop::expr(Expr::val(inv).mul(Expr::var(cond)))
                 } else if inc == C::ZERO {
                     OptLoop::infinite(at_least_once)
@@ -749,21 +765,53 @@ impl<C: CellType> OptRebuild<'_, C> {
                         let mut after = other;
                         let expr_neg_one = expr.add(Expr::val(C::NEG_ONE));
                         for (initial, increment) in linears {
+                            #[cfg(feature = "verif")]
+                            let (log_before, log_initial, log_increment) =
+                                (before.clone(), initial.clone(), increment.clone());
+                            #[cfg(feature = "verif")]
+                            let branch;
                             if let Some(inc) = increment.half() {
                                 before = expr
                                     .mul(initial)
                                     .add(before.add(expr.mul(expr_neg_one.mul(inc))));
+                                #[cfg(feature = "verif")]
+                                {
+                                    branch = 1;
+                                }
                             } else if let Some(inc) = expr.half() {
                                 before = expr
                                     .mul(initial)
                                     .add(before.add(expr_neg_one.mul(increment.mul(inc))));
+                                #[cfg(feature = "verif")]
+                                {
+                                    branch = 2;
+                                }
                             } else if let Some(inc) = expr_neg_one.half() {
                                 before = expr
                                     .mul(initial)
                                     .add(before.add(expr.mul(increment.mul(inc))));
+                                #[cfg(feature = "verif")]
+                                {
+                                    branch = 3;
+                                }
                             } else {
                                 after = after.add(initial);
+                                #[cfg(feature = "verif")]
+                                {
+                                    branch = 0;
+                                }
                             }
+                            #[cfg(feature = "verif")]
+                            crate::verif::trace(format!(
+                                "tri {} {} {} {} {} {} {}",
+                                C::BITS,
+                                branch,
+                                crate::verif::fmt_expr(expr),
+                                crate::verif::fmt_expr(&log_initial),
+                                crate::verif::fmt_expr(&log_increment),
+                                crate::verif::fmt_expr(&log_before),
+                                crate::verif::fmt_expr(&before)
+                            ));
                         }
                         return [
                             Some(Expr::var(var).add(before)),
@@ -772,6 +820,14 @@ impl<C: CellType> OptRebuild<'_, C> {
                         ];
                     } else if let Some(c) = expr.constant() {
                         if inc.is_zero() {
+                            #[cfg(feature = "verif")]
+                            crate::verif::trace(format!(
+                                "powmul {} {} {} {}",
+                                C::BITS,
+                                mul.into_u64(),
+                                c.into_u64(),
+                                mul.wrapping_pow(c).into_u64()
+                            ));
                             return [
                                 Some(Expr::val(mul.wrapping_pow(c)).mul(Expr::var(var))),
                                 None,
@@ -779,6 +835,15 @@ impl<C: CellType> OptRebuild<'_, C> {
                             ];
                         } else if inc.variables().all(|x| constant.contains(&x)) {
                             let m = wrapping_geometric_sum(mul, c);
+                            #[cfg(feature = "verif")]
+                            crate::verif::trace(format!(
+                                "geom {} {} {} {} {}",
+                                C::BITS,
+                                mul.into_u64(),
+                                c.into_u64(),
+                                mul.wrapping_pow(c).into_u64(),
+                                m.into_u64()
+                            ));
                             return [
                                 Some(
                                     Expr::val(mul.wrapping_pow(c))
